@@ -1161,3 +1161,41 @@ def joinrows_unpaired_edges(rng, count):
         if rng.random() < 0.3:
             a, b = b.replace("rest=1", "rest=0"), a.replace("rest=0", "rest=1")
         yield f"JOINROWS {pstr(P)} A={a} B={b}"
+
+
+def pair_fractional(rng, count):
+    """PAIR on coordinates with one decimal (as in real CMAP files), given in tenths: offsets of exactly maxDistance,
+    maxDistance + 0.1 ... + 0.9 (strictly between the integer boundary and the next integer), both signs, both strands"""
+    for _ in range(count):
+        u = 10
+        md = rng.choice([10, 100, 1500])
+        n = rng.randrange(1, 8)
+        R = sorted(rng.sample(range(0, 40 * md * u + 100), n))
+        start = rng.randrange(0, 5 * md * u)
+        Q = []
+        for r in R:
+            if rng.random() < 0.8:
+                off = rng.choice([0, md * u, -md * u, md * u + rng.randrange(1, 10), -md * u - rng.randrange(1, 10),
+                                  md * u - rng.randrange(1, 10), rng.randrange(-md * u, md * u + 1), 5 * rng.randrange(-3, 4)])
+                q = r - start + off
+                if q >= 0:
+                    Q.append(q)
+        Q = sorted(set(Q)) or [0]
+        rev = rng.randrange(2)
+        L = Q[-1] // u + 1 + rng.choice([0, 0, 7])            # molecule length in bp
+        Lp = u * L - (u - 1)
+        if rev:
+            Q = sorted(u * (L - 1) - q for q in Q if u * (L - 1) - q >= 0) or [0]
+        stop = start + u * L
+        yield (f"PAIR unit={u} md={md * u} start={start} stop={stop} rev={rev} it={rng.randrange(1, 50)} "
+               f"REF={mapstr(1, u * (R[-1] // u + 100) - (u - 1), 0, R)} QRY={mapstr(2, Lp, 0, Q)}")
+
+
+def trim_fractional(rng, count):
+    for _ in range(count):
+        u = 10
+        n = rng.randrange(1, 30)
+        pos = sorted(rng.randrange(0, 5000000) for _ in range(n))
+        if rng.random() < 0.3:
+            pos = [p - pos[0] for p in pos]
+        yield f"TRIM unit={u} M={mapstr(rng.randrange(1, 99), pos[-1] + u * rng.randrange(1, 999) - (u - 1), 0, pos)}"
